@@ -19,7 +19,7 @@ import (
 // (real GoogleProvider, real GoogleAdminService over an in-memory Admin SDK transport, the provider's
 // own breaker settings, clock frozen). Every sequence of up to five operations from {token validation
 // accepted / refused by the identity provider, directory question answered / failing / rejected as an
-// invalid member key} is run; the
+// invalid member key, member listing answered / failing} is run; the
 // reference breaker is fed with the DIRECTORY outcomes only, and a directory question must reach the
 // directory exactly when the reference breaker is closed.
 
@@ -38,6 +38,8 @@ func (t *c15DirTransport) RoundTrip(r *http.Request) (*http.Response, error) {
 		code, body = 500, `{"error":{"code":500,"message":"backend error"}}`
 	case t.badID && strings.Contains(r.URL.Path, "/hasMember/"):
 		code, body = 400, `{"error":{"code":400,"message":"Invalid Input: memberKey","errors":[{"message":"Invalid Input: memberKey","domain":"global","reason":"invalid"}]}}`
+	case strings.HasSuffix(r.URL.Path, "/members"):
+		body = `{"members":[{"email":"u@corp.test","role":"MEMBER","type":"USER"}]}`
 	case strings.Contains(r.URL.Path, "/members/"):
 		body = `{"email":"u@corp.test","role":"MEMBER","type":"USER"}`
 	}
@@ -51,12 +53,17 @@ func (t *c15DirTransport) RoundTrip(r *http.Request) (*http.Response, error) {
 }
 
 func c15RunProvider(c *fw.Ctx) {
+	var rmCred func()
+	credFile, rmCred = harness.GoogleCredentialsFile()
+	defer rmCred()
 	idp := harness.NewFakeIdP()
 	defer idp.Server.Close()
-	ops := []string{"validation-accepted", "validation-refused", "directory-answers", "directory-fails", "directory-rejects-the-member-key"}
+	ops := []string{"validation-accepted", "validation-refused", "directory-answers", "directory-fails", "directory-rejects-the-member-key",
+		// the directory's other endpoint (the member listing that fills the group cache): one directory, one breaker
+		"directory-listing-answers", "directory-listing-fails"}
 	depth := 5
 	drive(c, "provider/google-directory-breaker", -1, func(x *explore.Exec, owned bool) {
-		gp, err := authp.NewGoogleProvider(&authp.ProviderData{ClientID: "cid", ClientSecret: "cs", SessionLifetimeTTL: time.Hour}, "", "", "", "")
+		gp, err := authp.NewGoogleProvider(&authp.ProviderData{ClientID: "cid", ClientSecret: "cs", SessionLifetimeTTL: time.Hour}, "", "", "admin@corp.test", credFile)
 		if err != nil {
 			panic(explore.HarnessError{Msg: err.Error()})
 		}
@@ -83,9 +90,14 @@ func c15RunProvider(c *fw.Ctx) {
 				ok := gp.ValidateSessionState(&sessions.SessionState{AccessToken: "tok", Email: "u@corp.test"})
 				hist = append(hist, fmt.Sprintf("%s -> %v", op, ok))
 			default:
-				dir.fail, dir.badID = op == "directory-fails", op == "directory-rejects-the-member-key"
+				dir.fail, dir.badID = op == "directory-fails" || op == "directory-listing-fails", op == "directory-rejects-the-member-key"
 				before := len(dir.seen)
-				_, derr := gp.AdminService.CheckMemberships([]string{"group@corp.test"}, "u@corp.test")
+				var derr error
+				if strings.HasPrefix(op, "directory-listing") {
+					_, derr = gp.AdminService.ListMemberships("group@corp.test", 1)
+				} else {
+					_, derr = gp.AdminService.CheckMemberships([]string{"group@corp.test"}, "u@corp.test")
+				}
 				reqs := dir.seen[before:]
 				hist = append(hist, fmt.Sprintf("%s -> directory requests %v err=%v", op, reqs, derr))
 				report := func(key, what string) {
